@@ -257,6 +257,30 @@ func pullTxShape(p *packages.Package) []string {
 	return res
 }
 
+// GetSubscriptionMessages.nextAttempt: the column each of its `Order(ent.Asc(delivery.FieldX))` sorts by
+func nextAttemptOrders(p *packages.Package) []string {
+	fd := funcDecl(p, "GetSubscriptionMessages", "nextAttempt")
+	var res []string
+	if fd == nil {
+		return res
+	}
+	ast.Inspect(fd.Body, func(n ast.Node) bool {
+		c, ok := n.(*ast.CallExpr)
+		if !ok {
+			return true
+		}
+		if se, ok := c.Fun.(*ast.SelectorExpr); ok && se.Sel.Name == "Order" && len(c.Args) == 1 {
+			if in, ok := c.Args[0].(*ast.CallExpr); ok && len(in.Args) == 1 {
+				dir := exprName(in.Fun)
+				res = append(res, strings.TrimPrefix(dir, "ent.")+":"+strings.TrimPrefix(exprName(in.Args[0]), "delivery.Field"))
+			}
+		}
+		return true
+	})
+	// source order (Inspect visits the outer call of a chain first; the chains are separate statements)
+	return res
+}
+
 // every `case <-pubNotify:` of MessageStreamer.Go: does its body start by taking a new awaiter
 func streamerRenewals(p *packages.Package) []string {
 	fd := funcDecl(p, "MessageStreamer", "Go")
@@ -869,6 +893,7 @@ func main() {
 	regFirst, selCases := pullLoopFacts(act)
 	fmt.Fprintf(&out, "/-- in the RETRY loop of GetSubscriptionMessages.execute the awaiter is registered before the query transaction -/\ndef pullRegistersBeforeQuery : Bool := %v\n", regFirst)
 	fmt.Fprintf(&out, "/-- the cases of that loop's select and how each ends -/\ndef pullSelectCases : List String := %s\n", q(selCases))
+	fmt.Fprintf(&out, "/-- the sort order of the queries of GetSubscriptionMessages.nextAttempt (the wake-up time of a waiting pull) -/\ndef nextAttemptOrders : List String := %s\n", q(nextAttemptOrders(act)))
 	fmt.Fprintf(&out, "/-- the transaction closures of GetSubscriptionMessages.execute that select candidates: do they record the attempt too -/\ndef pullTxShape : List String := %s\n", q(pullTxShape(act)))
 	fmt.Fprintf(&out, "/-- every `case <-pubNotify` of MessageStreamer.Go: does it take a new awaiter first -/\ndef streamerRenewals : List String := %s\n", q(streamerRenewals(act)))
 	fmt.Fprintf(&out, "/-- every Send / SendBatch of the sender goroutine of MessageStreamer.Go: are the fetched deliveries entered into `pending` before it -/\ndef streamerBooksBeforeSend : List String := %s\n", q(streamerBooksBeforeSend(act)))
